@@ -34,6 +34,11 @@ AUTH_SWEEP = {"quick": [dict(module="MC_Auth.tla", cfg="MC_Auth.cfg")], "thoroug
 PAR_SWEEP = {"quick": [dict(module="MC_Par.tla", cfg="MC_Par.cfg")], "thorough": [dict(module="MC_Par.tla", cfg="MC_Par.cfg")]}
 
 
+ENT_GHOST = {"quick": [dict(module="MC_Ent.tla", cfg="MC_Ent_ghost.cfg", workers=16, timeout=600)], "thorough": [dict(module="MC_Ent.tla", cfg="MC_Ent_ghost.cfg", workers=16, timeout=600)]}
+REG_GHOST = {"quick": [dict(module="MC_Reg.tla", cfg="MC_Reg_ghost.cfg", workers=16, timeout=600)], "thorough": [dict(module="MC_Reg.tla", cfg="MC_Reg_ghost.cfg", workers=16, timeout=600)]}
+STR_GHOST = {"quick": [dict(module="MC_Str.tla", cfg="MC_Str_ghost.cfg", workers=16, timeout=600)], "thorough": [dict(module="MC_Str.tla", cfg="MC_Str_ghost.cfg", workers=16, timeout=600)]}
+
+
 def both(*dicts):
     out = {"quick": [], "thorough": []}
     for d in dicts:
@@ -195,6 +200,24 @@ def c01_custom(pid, tier, plan, scr, hbin, specdir):
     for h in hists:
         variants += crash_variants(h, cap, rng)
     twin(variants, "twin-allpoints", "random mixed histories x every crash point on replicas A/B/C")
+    # (3) behaviours in which something was written only inside a rolled-back transaction or proposal (coverage goals
+    #     ghost* / gov:proposal-rolled-back of the bounded models), crashed at the block boundaries right before the
+    #     step whose outcome would depend on it: a restarted replica has lost whatever the process kept outside the store
+    gvars = []
+    for mod, cfg in (("MC_Ent.tla", "MC_Ent_ghost.cfg"), ("MC_Reg.tla", "MC_Reg_ghost.cfg"), ("MC_Str.tla", "MC_Str_ghost.cfg")):
+        r = vlib.mc_exhaustive(specdir, mod, cfg, scr, workers=16, timeout=900)
+        cov["mc_runs"].append(r)
+        cov["states"] += r["distinct"]
+        cov["transitions"] += r["generated"]
+        sel = {l: v for l, v in vlib.mc_exhaustive.goals.items() if l.startswith(("ghost", "gov:proposal-rolled"))}
+        behs, used = vlib.goal_schedules(sel, mod, 2 if tier == "quick" else 6)
+        cov.setdefault("goal_labels_replayed", {}).update(used)
+        for b, gl in zip(behs, vlib.goal_schedules.glens):
+            commits = [i for i, ev in enumerate(b) if ev["a"] == "Commit" and i < gl - 1]
+            for i in commits[-2:]:
+                gvars.append(b[:i + 1] + [{"a": "Crash"}, {"a": "Restart"}] + b[i + 1:])
+    if gvars:
+        twin(gvars, "twin-goals", "tlc-coverage-goals (rolled-back writes) x crash before the dependent step on replicas A/B/C")
     violations, known_hits = classify(pid, recs, cov, scr, specdir)
     return cov, violations, known_hits
 
@@ -372,10 +395,10 @@ def c18_custom(pid, tier, plan, scr, hbin, specdir):
 
 
 PLANS = {
-    "C03": dict(mc=ENT_MC, sim=ENT_SIM, random=rnd("ent", (300, 3), (2000, 20)),
+    "C03": dict(mc=both(ENT_MC, ENT_GHOST), sim=ENT_SIM, random=rnd("ent", (300, 3), (2000, 20)),
                 rule="TLC exhaustive on MC_Ent (all interleavings of raise/decide/whitelist/gov param change/time advance in small scope); behaviours = TLC-simulated schedules + seeded random histories executed on the real app; non-trivial = a recorded step (one ABCI call) validated against Chain!Step and all C03 monitors",
                 assumptions=COMMON_ASSUME),
-    "C04": dict(mc=FEE_MC, sim=both(FEE_SIM, ENT_SIM), sweep=FEE_SWEEP, random=rnd("ent", (300, 3), (2000, 20)),
+    "C04": dict(mc=both(FEE_MC, ENT_MC), sim=both(FEE_SIM, ENT_SIM), sweep=FEE_SWEEP, random=rnd("ent", (300, 3), (2000, 20)),
                 rule="TLC exhaustive on MC_Fee (orders completing, then fee-paying registry txs with every relation of locked/liquid to the fee, exact/higher/missing/multi-denomination fees, bad signatures, k-th message failing, sends to escrow); view = locked/spent books, totals, escrow balance, registered module invariant", assumptions=COMMON_ASSUME),
     "C05": dict(mc=FEE_MC, sim=FEE_SIM, sweep=FEE_SWEEP, random=both(rnd("ent", (300, 4), (2000, 20)), rnd("mix", (200, 2), (1500, 10))),
                 rule="as C04 plus vesting purchasers in the random histories; monitors: locked drops only by min(fee, locked) in a registry tx of the payer and equals the spent increase; completion never raises spendable", assumptions=COMMON_ASSUME),
@@ -383,19 +406,19 @@ PLANS = {
                 rule="supply and sum of ALL balances (iteration incl. unmodelled accounts) after every step of mixed histories; mint/burn events of every ABCI response equal the supply delta; supply changes only in BeginBlock by the completed orders' amounts", assumptions=COMMON_ASSUME),
     "C13": dict(mc=both(REG_MC, STR_MC), sweep=AUTH_SWEEP, random=rnd("mix", (300, 2), (1500, 10)),
                 rule="TLC breadth-first sweep MC_Auth: every message type x every account as signer x every account as named address in three encodings (foreign key, proper signature, Exec wrapper) from a prepared state; each behaviour replayed on the real app; state digest before/after compared", assumptions=COMMON_ASSUME),
-    "C14": dict(mc=both(FEE_MC, ENT_MC), sim=both(FEE_SIM, ENT_SIM), sweep=both(FEE_SWEEP, PAR_SWEEP), random=rnd("mix", (400, 3), (2500, 20)),
+    "C14": dict(mc=both(FEE_MC, ENT_MC, ENT_GHOST), sim=both(FEE_SIM, ENT_SIM), sweep=both(FEE_SWEEP, PAR_SWEEP, AUTH_SWEEP), random=rnd("mix", (400, 3), (2500, 20)),
                 rule="begin/end block and commit wrapped in recover (a panic is the observation halted); failed and panicking txs compared on the full projection (only ante effects may remain); multi-message txs with the k-th message failing", assumptions=COMMON_ASSUME),
-    "C16": dict(sweep=PAR_SWEEP, sim=ENT_SIM, random=rnd("mix", (300, 2), (1500, 10)),
+    "C16": dict(mc=both(ENT_GHOST, REG_GHOST, STR_GHOST), sweep=PAR_SWEEP, sim=ENT_SIM, random=rnd("mix", (300, 2), (1500, 10)),
                 rule="TLC breadth-first sweep MC_Par: parameter structures with each field at/inside/outside its bounds through a real governance proposal, followed by probes of every dependent rule; stored parameters re-validated against the stated rules in every observed state", assumptions=COMMON_ASSUME),
     "C17": dict(mc=FEE_MC, sim=FEE_SIM, sweep=FEE_SWEEP, random=rnd("mix", (300, 3), (2000, 15)),
                 rule="at every block boundary of the corpus the enterprise supply queries (SupplyOf every denomination, EnterpriseSupply, TotalUnlocked, TotalSupply with every page size in key and offset mode) are recorded and checked against bank supply and total locked of the same state", assumptions=COMMON_ASSUME),
     "C07": dict(mc=REG_MC, sim=REG_SIM, sweep=REG_SWEEP, random=rnd("reg", (300, 3), (2000, 20)),
                 rule="TLC exhaustive on MC_Reg (registrations, records at lower/equal/next/gapped/huge heights by owners and strangers, purchases incl. Exec-wrapped and huge, gov limit changes); TLC-simulated + seeded random schedules executed on the real app; every record ever accepted is re-queried after every step", assumptions=COMMON_ASSUME),
-    "C08": dict(mc=REG_MC, sim=REG_SIM, sweep=REG_SWEEP, random=rnd("reg", (300, 3), (2000, 20)),
+    "C08": dict(mc=both(REG_MC, REG_GHOST), sim=REG_SIM, sweep=REG_SWEEP, random=rnd("reg", (300, 3), (2000, 20)),
                 rule="as C07; view = counters, limits, reported storage, in-state key sets (point queries and store iteration)", assumptions=COMMON_ASSUME),
     "C09": dict(mc=REG_MC, sim=REG_SIM, sweep=REG_SWEEP, random=rnd("reg", (300, 3), (2000, 20)),
                 rule="as C07; view = ids, metadata of every registration ever made, owner-only writes", assumptions=COMMON_ASSUME),
-    "C10": dict(arith=True, mc=STR_MC, sim=STR_SIM, sweep=STR_SWEEP, random=rnd("str", (300, 3), (2000, 20)),
+    "C10": dict(arith=True, mc=both(STR_MC, STR_GHOST), sim=STR_SIM, sweep=STR_SWEEP, random=rnd("str", (300, 3), (2000, 20)),
                 rule="TLC exhaustive on MC_Str (create/claim/top-up/rate change/cancel, two denominations, time advances 0/sub-second/seconds/beyond zero time, gov fee changes, sends to escrow); schedules executed on the real app; escrow balance, every stream, balances of all parties and the registered module invariant compared after every step", assumptions=COMMON_ASSUME),
     "C11": dict(arith=True, mc=STR_MC, sim=STR_SIM, sweep=STR_SWEEP, random=rnd("str", (300, 3), (2000, 20)),
                 rule="as C10; view = deposit, last release time, deposit-zero time of every stream, claim responses; monitor Sustained. Big-number region (deposits to 2^200, rates to 2^63-1, durations of thousands of years, nanosecond block times): Apalache finds inputs on which a reading of the Go int64/uint64/Duration arithmetic (mc/ArithAsBuilt.tla) disagrees with StreamArith.tla in three input domains; witnesses + a boundary table are executed on the real app (one signed tx per block) and Apalache judges every recorded step against StreamArith.tla from the observed pre-state (ArithJudge.tla)", assumptions=COMMON_ASSUME + ARITH_ASSUME),
